@@ -255,3 +255,56 @@ pub fn zd_table(stream: &[u8]) -> String {
     }
     out
 }
+
+/// Best-effort location of the compressed stream inside a serialized message, then its ZD table.
+pub fn zd_table_of_message(bytes: &[u8]) -> String {
+    fn skip_id(b: &[u8], mut i: usize) -> Option<usize> {
+        if i + 2 > b.len() {
+            return None;
+        }
+        let l = u16::from_le_bytes([b[i], b[i + 1]]) as usize;
+        i += 2 + l + 8;
+        if i >= b.len() {
+            return None;
+        }
+        i += match b[i] {
+            4 => 1 + 4 + 2,
+            6 => 1 + 16 + 2,
+            _ => return None,
+        };
+        if i > b.len() {
+            return None;
+        }
+        Some(i)
+    }
+    if bytes.len() < 4 {
+        return String::new();
+    }
+    let start = match bytes[3] {
+        2 => Some(4usize),
+        1 => {
+            // skip the digest
+            (|| {
+                let mut i = 4usize;
+                if i + 2 > bytes.len() {
+                    return None;
+                }
+                let n = u16::from_le_bytes([bytes[i], bytes[i + 1]]) as usize;
+                i += 2;
+                for _ in 0..n {
+                    i = skip_id(bytes, i)?;
+                    i += 24;
+                    if i > bytes.len() {
+                        return None;
+                    }
+                }
+                Some(i)
+            })()
+        }
+        _ => None,
+    };
+    match start {
+        Some(s) if s <= bytes.len() => zd_table(&bytes[s..]),
+        _ => String::new(),
+    }
+}
